@@ -84,7 +84,8 @@ class Report:
             self.failures[key] = {"msg": msg, "replay": replay}
 
     def finish(self) -> int:
-        known = [f for f in load_findings() if f.get("property") == self.prop and f.get("status", "known") == "known"]
+        known = [f for f in load_findings() if (f.get("property") == self.prop or self.prop in f.get("also", []))
+                 and f.get("status", "known") == "known"]
         known_keys = {f["key"]: f for f in known}
         violations = 0
         lines = []
